@@ -24,13 +24,19 @@ def run(tier, bugs=None, liveness=True):
         why = [w for w in re.findall(r'why \|->\s*"([^"]*)"', r.stdout) if w]
         return dict(out, design_rejected=(r.invariant_violated, why[-1] if why else None), tlc=r.stdout[-5000:])
     out["states"] = r.distinct
-    for b in (bugs if bugs is not None else EXPECT):
+    for b in [x for x in (bugs if bugs is not None else EXPECT) if x in EXPECT]:
         rb = common.run_tlc("MC_KotoVm", "MC_KotoVm.cfg", workers=1, env={"BUG": b, "MAXEVENTS": 10, "LIMIT": "1", "LIVE": "0"}, timeout=3000,
                             coverage=False, tag="mckv_" + b)
         why = [w for w in re.findall(r'why \|->\s*"([^"]*)"', rb.stdout) if w]
         if rb.invariant_violated != "Accepted" or not why or not any(why[-1].startswith(e) for e in EXPECT[b]):
             raise common.ToolError("MC_KotoVm self-test: bug %s was not rejected by %s (%s, %s)" % (b, EXPECT[b], rb.invariant_violated, why[-1:] ))
         out["bugs_rejected"][b] = why[-1].split(":")[0]
+    if bugs is None or "stale_deadline" in bugs:
+        rb = common.run_tlc("MC_KotoVm", "MC_KotoVm.cfg", workers=1, env={"BUG": "stale_deadline", "MAXEVENTS": 10, "LIMIT": "1", "LIVE": "0"}, timeout=3000,
+                            coverage=False, tag="mckv_stale_deadline")
+        if rb.invariant_violated != "RearmedPerRun":
+            raise common.ToolError("MC_KotoVm self-test: a deadline that stays armed after a failed run was not rejected by RearmedPerRun (%s)" % rb.invariant_violated)
+        out["bugs_rejected"]["stale_deadline"] = "RearmedPerRun"
     if liveness:
         rl = common.run_tlc("MC_KotoVm", "MC_KotoVm_live.cfg", workers=4, env={"BUG": "", "MAXEVENTS": n, "LIMIT": "1", "LIVE": "1"}, timeout=3000,
                             coverage=False, tag="mckv_live")
